@@ -99,11 +99,21 @@ def run(chk):
                 for dd in (-9, -8, -7, -1, 0, 1, 7, 8, 9):
                     if 0 <= x + dd < len(img):
                         cuts.add(x + dd)
-            for _ in range(300 if tier == "quick" else 1500):
+            for _ in range(300 if tier == "quick" else 800):
                 cuts.add(chk.rng.below(len(img)))
-            # the relocation section is where a cut is hardest to see: all of it
-            for x in range(b[-2], len(img)):
-                cuts.add(x)
+            # the relocation section is where a cut is hardest to see: all of it when it is short, else every entry boundary +-1 of a sample
+            # of entries and a sample of interior points (the model loader is quadratic in the number of relocations)
+            rel = range(b[-2], len(img))
+            if len(rel) <= (1200 if tier == "quick" else 2400):
+                cuts.update(rel)
+            else:
+                for _ in range(400 if tier == "quick" else 800):
+                    e = b[-2] + 8 * chk.rng.below(len(rel) // 8 + 1)
+                    for dd in (-1, 0, 1, 4):
+                        if b[-2] <= e + dd < len(img):
+                            cuts.add(e + dd)
+                cuts.update(range(len(img) - 24, len(img)))
+                cuts.update(range(b[-2], b[-2] + 24))
         else:
             cuts = set(range(len(img)))   # exhaustive
         for n in sorted(cuts):
